@@ -569,6 +569,12 @@ def correspondence(ctx, cases, per_file):
                      + ";\n".join(terms) + "].\n" + CHECK_DEFS)
         files.append((f, kept))
     res = ctx.coqc_many([f for f, _ in files], jobs=16, timeout=900)
+    # a compile that died without a Coq error message (killed from outside / out of memory on a shared
+    # machine) is retried once with fewer parallel jobs
+    again = [f for f, _ in files if res[f][0] != 0 and "Error" not in res[f][1]]
+    if again:
+        ctx.notes.append(f"{len(again)} case file(s) re-compiled after dying without a Coq error")
+        res.update(ctx.coqc_many(again, jobs=4, timeout=1800))
     problems = []          # (kind, case, which)
     n = 0
     for f, kept in files:
